@@ -37,6 +37,12 @@ pub enum Kind {
     /// the same synthetic hit patterns packed for a REAL run number: that run's maps, delays and
     /// calibration tables (baselines as pedestals) take part in the result
     RealHits { run: u32, pattern: u8, n: usize },
+    /// the WHOLE detector answers: every installed (board, chip) group sends all 72 pad channels
+    /// with a waveform a few samples longer than the delay (all 18432 pads carry a signal), a
+    /// few wires and the TRG bank. `extra` 1: one more group from a board that is NOT installed,
+    /// malformed (its end-of-message chunk is missing) - the event must be rejected, whatever the
+    /// order in which the groups are visited; 2: that extra group well formed but without pads
+    FullTpc { extra: u8 },
     /// random bank names and bytes
     Random { n: usize },
     /// C10 base event with one event-builder fault
@@ -148,6 +154,42 @@ pub fn kind_banks(kind: &Kind, seed: u64) -> (u32, BankList) {
             let sig = fwd::signals_of(&[Av { wire: *wire, bin: *bin, z, wire_amp: *amp, pad_amp: amp * 12.0 }], 0.005);
             (fwd::SIM_RUN, fwd::banks_of(&sig, 1, 0.0, seed, 65535))
         }
+        Kind::FullTpc { extra } => {
+            let run = fwd::SIM_RUN;
+            let maps = run_maps(run);
+            let mut out: BankList = vec![("ATAT".into(), TrgSpec::simple(r.next_u32(), r.next_u32() >> 4).encode())];
+            for w in [3usize, 100, 200] {
+                if let Some((bi, ch)) = maps.wire_src[w] {
+                    let board = &boards::adc_boards()[bi];
+                    let wf: Vec<i16> = (0..130).map(|j| 3000 + ((j * 7 + w) % 11) as i16).collect();
+                    out.push(crate::eventgen::wire_bank(board, bi as u8, ch, wf));
+                }
+            }
+            let req = 104u16;
+            for &bi in &maps.pwb_installed {
+                let board = &boards::pwb_boards()[bi];
+                for chip in 0..4u8 {
+                    let chans: Vec<(u16, Vec<i16>)> = (1..=72u16).map(|pc| (pc, (0..req as usize).map(|j| 1725 + ((j + pc as usize + bi) % 9) as i16).collect())).collect();
+                    out.extend(crate::eventgen::pad_banks(board, chip, req, chans, 1400, r.next_u32()));
+                }
+            }
+            if *extra > 0 {
+                if let Some(bi) = (0..boards::pwb_boards().len()).find(|k| !maps.pwb_installed.contains(k)) {
+                    let board = &boards::pwb_boards()[bi];
+                    let chans: Vec<(u16, Vec<i16>)> = if *extra == 1 { (1..=72u16).map(|pc| (pc, vec![1730; req as usize])).collect() } else { vec![] };
+                    let mut banks = crate::eventgen::pad_banks(board, 1, req, chans, 1400, 77);
+                    if *extra == 1 {
+                        banks.pop(); // the end-of-message chunk never arrives
+                    }
+                    // somewhere in the middle of the bank list
+                    let at = out.len() / 2;
+                    for (k, b) in banks.into_iter().enumerate() {
+                        out.insert(at + k, b);
+                    }
+                }
+            }
+            (run, out)
+        }
         Kind::RealHits { run, pattern, n } => {
             let (_, sim) = kind_banks_hits(&mut r, *pattern, *n, Some(*run));
             (*run, sim)
@@ -205,8 +247,8 @@ fn random_kind(r: &mut Rng, tier: Tier, index: u64) -> Kind {
             seam: r.chance(1, 3),
         },
         4 | 5 => Kind::Pulse { wire: r.usize(0, 255), bin: r.usize(0, 300), row: r.usize(0, 575), amp: *r.pick(&[80.0, 20.0, 300.0]) },
-        7 if r.chance(1, 2) => Kind::RealHits { run: *r.pick(&[11084u32, 11192, 12000, 9277, 10418, 7026]), pattern: r.below(23) as u8, n: *r.pick(&[1usize, 13, 40, 256]) },
-        6 | 7 => Kind::Hits { pattern: r.below(24) as u8, n: if tier == Tier::Thorough && r.chance(1, 20) { *r.pick(&[600usize, 1000, 2000]) } else { *r.pick(&[1usize, 2, 12, 13, 14, 30, 60, 256]) } },
+        7 if r.chance(1, 2) => Kind::RealHits { run: *r.pick(&[11084u32, 11192, 12000, 9277, 10418, 7026]), pattern: r.below(24) as u8, n: *r.pick(&[1usize, 13, 40, 256]) },
+        6 | 7 => Kind::Hits { pattern: r.below(25) as u8, n: if tier == Tier::Thorough && r.chance(1, 20) { *r.pick(&[600usize, 1000, 2000]) } else { *r.pick(&[1usize, 2, 12, 13, 14, 30, 60, 256]) } },
         8 => Kind::Random { n: r.usize(0, 12) },
         _ => Kind::EvFault {
             base: BaseEvent { run: *r.pick(&[u32::MAX, 11084, 9277, 0]), seed: r.next_u64(), n_wires: r.usize(1, 30), n_pad_msgs: r.usize(0, 3), long_only: r.chance(1, 2), pad_start: None, suppressed_only: false },
@@ -545,6 +587,13 @@ fn kind_banks_hits(r: &mut Rng, pattern: u8, n: usize, run: Option<u32>) -> (u32
                     _ => Av { wire: r.usize(0, 255), bin: r.usize(0, 280), z: r.f64_range(-1.15, 1.15), wire_amp: r.f64_range(5.0, 300.0), pad_amp: r.f64_range(50.0, 2500.0) },
                 });
             }
+            if pattern == 23 {
+                // a comb over a WHOLE pad column: every second of its 576 rows is a peak (287 pad hits in
+                // one column and time bin, the most the geometry allows)
+                let sig = fwd::isochronous_column(w0 / 8, 0, 20 + (r.usize(0, 250)), 1.0, 575);
+                let run = run.unwrap_or(fwd::SIM_RUN);
+                return (run, fwd::banks_of_run(&sig, run, r.next_u32(), 0.0, r.next_u64(), 30000));
+            }
             if pattern == 21 || pattern == 22 {
                 // isochronous hits in one pad column (see fwd::isochronous_column): 8 pad peaks (17
                 // rows) or, pattern 22, 9-14 pad peaks - more pad hits than the column has wires
@@ -580,6 +629,7 @@ pub fn kind_name(k: &Kind) -> &'static str {
         Kind::Pulse { .. } => "pulse",
         Kind::Hits { .. } => "hits",
         Kind::RealHits { .. } => "realhits",
+        Kind::FullTpc { .. } => "fulltpc",
         Kind::Random { .. } => "random",
         Kind::EvFault { .. } => "evfault",
         Kind::File { .. } => "file",
